@@ -49,13 +49,15 @@ BUDGET = {'quick': (16, 70), 'thorough': (16, 1000)}
 # an `open` entry in known_findings.json) counts it.  With False it is an OutOfDomain.
 KNOWN_AS_VIOLATION = True
 
-RULE = ('Per case: a generated tree of 2 top-level packages / 8 modules (flags: does each package '
+RULE = ('Per case: a generated tree of 2 top-level packages / 9 modules (one submodule of the '
+        'second package is named exactly like the first top-level package; flags: does each package '
         '__init__ import its submodules; which re-exports exist), every module defining fn, gn, '
         'class K with methods meth/other/fn (fn named like the module-level function) and nested '
         'class K.N with method nm, and a consumer '
         'cons; 1-4 config files (roots parsed as string or file, include trees) each enabling '
         'dynamic registration and importing 1-4 modules with a generated form (import a.b / '
         'import a.b as c / from a import b / from a import b as c) and alias from a small pool '
+        '(two free names, two names of real sibling modules, the first top-level package\'s name) '
         '(so the same bound name denotes different modules in different files); 1-6 statements '
         'per file (flat or block syntax) binding a parameter of an object chosen by (import, '
         'definition) through a generated index into ALL spellings Python accepts for that object '
@@ -65,7 +67,8 @@ RULE = ('Per case: a generated tree of 2 top-level packages / 8 modules (flags: 
         'files or >=2 distinct import spellings of one module) and a method or nested class is '
         'configured, on a valid (no injected fault) case. Distinct = distinct case JSON. Two '
         'bounded sweeps run first: every import form x module depth x __init__ flag (3-file and '
-        '1-file layouts, plus one name for two modules in two files; 52 cases) and every error '
+        '1-file layouts, plus one name for two modules in two files, and a plain dotted import '
+        'whose top-level name is bound to another module in another file; 64 cases) and every error '
         'class x position (root / included / second root) x variant (108 cases).')
 ASSUMPTIONS = [
     '`from X import Y` is generated only where Y is a module or package (Gin implements every '
@@ -131,11 +134,11 @@ LEVEL_TEXT = ('Generated package trees and config-file trees exercise every impo
               'space, not a proof.')
 LEVEL_NOTE = ('Trusted: CPython import semantics in the oracle child, the 30-line binding model, '
               'fork as "fresh interpreter" (the parent never imports the generated packages and '
-              'their names are unique per case). The tree shape is fixed (depth 3, 8 modules); '
+              'their names are unique per case). The tree shape is fixed (depth 3, 9 modules); '
               'only flags, imports, spellings and statements vary.')
 
 ENABLE = 'from __gin__ import dynamic_registration'
-ALIASES = ['mm', 'nn', 'm1', 'sub']
+ALIASES = ['mm', 'nn', 'm1', 'sub', '@top']   # '@top': the first top-level package's own name
 LEAF_DEFS = ['fn', 'gn', 'K', 'K.meth', 'K.other', 'K.N', 'K.N.nm', 'cons', 'K.fn']
 REF_DEFS = ['fn', 'gn', 'K', 'K.N']
 ERRORS = {
@@ -157,7 +160,10 @@ def _tag(case):
 
 def _module_names(tag):
   a, b = tag + 'a', tag + 'b'
-  return [a, a + '.m1', a + '.m2', a + '.sub', a + '.sub.m1', a + '.sub.m3', b, b + '.m1']
+  # The last one is a submodule of the second package named exactly like the FIRST top-level
+  # package: `from b import a` and a plain `import a.m1` (other file) bind the same name.
+  return [a, a + '.m1', a + '.m2', a + '.sub', a + '.sub.m1', a + '.sub.m3', b, b + '.m1',
+          b + '.' + a]
 
 
 PACKAGES = (0, 3, 6)
@@ -219,7 +225,7 @@ def _write_tree(root, names, pkg):
         src += f'\nfrom {asub}.m3 import gn as rgn\n'
     elif i == 6:
       if init[2]:
-        src += f'\nfrom {b} import m1\n'
+        src += f'\nfrom {b} import m1, {a}\n'
     sources[name] = (is_pkg, src)
   for name, (is_pkg, src) in sources.items():
     rel = name.replace('.', os.sep)
@@ -428,6 +434,8 @@ def _file_imports(fspec, fidx, names, renames):
   for k, (mod_i, form, alias_i) in enumerate(fspec['imports']):
     modname = names[mod_i % len(names)]
     alias = renames.get((fidx, k)) or ALIASES[alias_i % len(ALIASES)]
+    if alias == '@top':
+      alias = names[0]
     line, name, partial, form = _import_line(modname, form % 4, alias)
     if name in bound and not (form == 0 and bound[name] == 0):
       alias = f'u{fidx}{k}'
@@ -1240,8 +1248,8 @@ _alias_i = st.integers(0, len(ALIASES) - 1)
 def _case(draw):
   pkg = {'init': draw(st.lists(st.booleans(), min_size=3, max_size=3)),
          'reexp': draw(st.integers(0, 3))}
-  focus = draw(st.sampled_from([1, 1, 1, 2, 4, 4, 5, 0, 3, 7]))
-  mod_i = st.just(focus) | st.integers(0, 7)
+  focus = draw(st.sampled_from([1, 1, 1, 2, 4, 4, 5, 0, 3, 7, 8]))
+  mod_i = st.just(focus) | st.integers(0, 8)
   imp = st.tuples(mod_i, st.integers(0, 3), _alias_i).map(list)
   imp_i = st.just(0) | st.integers(0, 3)
   def_i = st.sampled_from([0, 1, 2, 2, 3, 3, 3, 4, 5, 6, 7, 8])
@@ -1298,6 +1306,17 @@ def _sweep_forms(tier):
                           ['b', 0, 6, 0, 1, 24, 0], ['b', 0, 7, 0, 1, 25, 1]]}
       cases.append({'pkg': {'init': [False] * 3, 'reexp': 0}, 'files': [single],
                     'error': None, 'keep': False})
+  # a plain dotted import binds its TOP-LEVEL name; another file binds that very name to another
+  # module (`from Q import P` where Q.P is a submodule named like package P, or an alias P)
+  for plain_mod in (1, 5):
+    for other in ([8, 2, 0], [7, 1, 4], [2, 3, 4]):
+      for inc in (None, 0):
+        fa = {'parent': None, 'at': 2, 'str': False, 'imports': [[plain_mod, 0, 0]],
+              'stmts': [['b', 0, 0, 0, 0, 41, 0], ['b', 0, 2, 0, 1, 42, 0]]}
+        fb = {'parent': inc, 'at': 1, 'str': False, 'imports': [other],
+              'stmts': [['b', 0, 0, 0, 1, 43, 0], ['r', 0, 0, 0, 0, 2, 0, 1]]}
+        cases.append({'pkg': {'init': [False] * 3, 'reexp': 0}, 'files': [fa, fb],
+                      'error': None, 'keep': False})
   # two files binding ONE name to two modules: the config string has to re-alias one of them
   for form in (2, 3):
     for inc in (None, 0):
